@@ -86,7 +86,15 @@ Theorem C17_serialized_length_generated : forall (E : Type) (elem_bytes : E -> l
 Proof. exact serialized_length_generated. Qed.
 Print Assumptions C17_serialized_length_generated.
 
-(* through a carrier of item size c the buffer has c * floor(esize * numel / c) bytes ... *)
+(* the same for any carrier whose item size divides the element size *)
+Theorem C17_serialized_length_divisible_carrier : forall (E : Type) (esize : Z) (elem_bytes : E -> list Z),
+  0 < esize -> (forall e, length (elem_bytes e) = Z.to_nat esize) ->
+  forall c (t : tensor E), 0 < c -> esize mod c = 0 -> wf_layout E t ->
+  llen (as_memoryview elem_bytes c t) = esize * numel t.
+Proof. exact serialized_length_divides. Qed.
+Print Assumptions C17_serialized_length_divisible_carrier.
+
+(* in general, through a carrier of item size c the buffer has c * floor(esize * numel / c) bytes ... *)
 Theorem C17_serialized_length_any_carrier : forall (E : Type) (esize : Z) (elem_bytes : E -> list Z),
   0 < esize -> (forall e, length (elem_bytes e) = Z.to_nat esize) ->
   forall c (t : tensor E), 0 < c -> wf_layout E t ->
@@ -120,6 +128,13 @@ Theorem C17_roundtrip : forall (E : Type) (esize : Z) (elem_bytes : E -> list Z)
   from_memoryview esize (as_memoryview elem_bytes 1 t) (t_shape t) = Ok (map elem_bytes (elems t)).
 Proof. exact roundtrip. Qed.
 Print Assumptions C17_roundtrip.
+
+Theorem C17_roundtrip_divisible_carrier : forall (E : Type) (esize : Z) (elem_bytes : E -> list Z),
+  0 < esize -> (forall e, length (elem_bytes e) = Z.to_nat esize) ->
+  forall c (t : tensor E), 0 < c -> esize mod c = 0 -> wf_layout E t ->
+  from_memoryview esize (as_memoryview elem_bytes c t) (t_shape t) = Ok (map elem_bytes (elems t)).
+Proof. exact roundtrip_divides. Qed.
+Print Assumptions C17_roundtrip_divisible_carrier.
 
 (* with a decoder inverting the encoding (frombuffer reinterprets the same bytes) the elements themselves come back *)
 Theorem C17_roundtrip_decoded : forall (E : Type) (esize : Z) (elem_bytes : E -> list Z),
@@ -245,6 +260,6 @@ Proof. vm_compute. repeat split; reflexivity. Qed.
 (* the generated tables say what the source says *)
 Example C17_example_tables :
   Dtype_get Dtype_bfloat16 dtype_to_element_size_table = Some 2 /\
-  C17_carrier Dtype_bfloat16 = Some 1 /\
+  C17_carrier_ok Dtype_bfloat16 = true /\
   Dtype_mem Dtype_bfloat16 buffer_protocol_supported_dtypes = true.
 Proof. vm_compute. repeat split; reflexivity. Qed.
